@@ -330,6 +330,7 @@ def start_loopback(http_factory):
 
     class Handler(http.server.BaseHTTPRequestHandler):
         protocol_version = "HTTP/1.1"
+        disable_nagle_algorithm = True      # headers and body are written separately: avoid the 40 ms Nagle / delayed-ACK stall
 
         def log_message(self, *a):
             pass
